@@ -3,6 +3,7 @@ package checks
 import (
 	"fmt"
 	"strconv"
+	"strings"
 
 	"verif/spaces"
 	"verif/tree"
@@ -63,7 +64,7 @@ type walkEvent struct {
 func init() {
 	register(&Check{
 		ID:   "C18",
-		Rule: "for every parsed tree from the stated input spaces (one root block, or a virtual root over all root blocks): Pre nil or not x Post nil or not x 6 child views x the return value of Pre at every call (all prune sets when the walked tree has <= 10 nodes, otherwise within the deviation bound) x abort at any one Post call; each execution is one complete callback policy; non-trivial = at least one node pruned or an abort, on a tree of >= 4 nodes",
+		Rule: "for every parsed tree from the stated input spaces (one root block, or a virtual root over all root blocks): Pre nil or not x Post nil or not x 6 child views x the return value of Pre at every call (all prune sets when the walked tree has <= 10 nodes, otherwise within the deviation bound) x abort at any one Post call, each followed by a second complete walk of the same tree that must equal the reference traversal; plus wide and deep trees (31..257 children or levels) with one pruned node or abort anywhere; each execution is one complete callback policy; non-trivial = at least one node pruned or an abort, on a tree of >= 4 nodes",
 		Assumptions: []string{
 			"walks start at a root block or at a virtual root (zero Node) presented through custom child functions, as format.Format does",
 			"the reference is the obvious recursive traversal replaying the same callback decisions",
@@ -79,11 +80,25 @@ func init() {
 					c18Driver(x, in)
 				})
 			}
+			// Wide and deep trees: child counts and depths around powers of two
+			// (where a traversal stack or frame buffer would grow or wrap).
+			ks := []int{32, 33, 65, 129}
+			if c.Thorough() {
+				ks = []int{31, 32, 33, 34, 63, 64, 65, 66, 127, 128, 129, 130, 257}
+			}
+			shapes := []struct{ name, unit, tail string }{{"paragraph lines", "a\n", ""}, {"list items", "- a\n", ""}, {"root blocks", "a\n\n", ""}, {"nested quotes", "> ", "a\n"}, {"emphasis siblings", "*a* ", "\n"}}
+			c.Explore("wide-and-deep", fmt.Sprintf("documents made of k repetitions of a unit (%d shapes: paragraph lines, list items, root blocks, nested quotes, emphasis siblings), k in %v, x views x callback policies within the deviation bound (one pruned node or abort anywhere)", len(shapes), ks), 1, 0, func(x *X) {
+				sh := shapes[x.ChooseFree(len(shapes))]
+				k := ks[x.ChooseFree(len(ks))]
+				c18Walk(x, []byte(strings.Repeat(sh.unit, k)+sh.tail), 1<<20)
+			})
 		},
 	})
 }
 
-func c18Driver(x *X, in []byte) {
+func c18Driver(x *X, in []byte) { c18Walk(x, in, 40) }
+
+func c18Walk(x *X, in []byte, maxNodes int) {
 	blocks, _ := cm.Parse(clone(in))
 	if len(blocks) == 0 {
 		return
@@ -107,7 +122,7 @@ func c18Driver(x *X, in []byte) {
 		root = blocks[bi].AsNode()
 		total = tree.Count(root)
 	}
-	if total > 40 {
+	if total > maxNodes {
 		x.Count("trees_skipped_over_40_nodes")
 		return
 	}
@@ -303,6 +318,39 @@ func c18Driver(x *X, in []byte) {
 	}
 	if gs != ws {
 		x.Fail("trace-differs", cfg, in, "Walk trace:\n%s\nreference trace:\n%s", gs, ws)
+		return
+	}
+	// A second, complete walk of the same tree right after the first one (which
+	// may have been pruned or aborted half-way): Walk keeps nothing between calls.
+	var got2, want2 []walkEvent
+	opts2 := &cm.WalkOptions{ChildCount: opts.ChildCount, Child: opts.Child,
+		Pre: func(cur *cm.Cursor) bool {
+			got2 = append(got2, walkEvent{false, cur.Node(), cur.Parent(), cur.Index(), cur.ParentBlock(), true})
+			return true
+		},
+		Post: func(cur *cm.Cursor) bool {
+			got2 = append(got2, walkEvent{true, cur.Node(), cur.Parent(), cur.Index(), cur.ParentBlock(), true})
+			return true
+		}}
+	if p, val := Protect(func() { cm.Walk(root, opts2) }); p {
+		x.Fail("walk-panicked", cfg, in, "second Walk of the same tree panicked: %v", val)
+		return
+	}
+	var rec2 func(n, parent cm.Node, index int, block *cm.Block)
+	rec2 = func(n, parent cm.Node, index int, block *cm.Block) {
+		want2 = append(want2, walkEvent{false, n, parent, index, block, true})
+		cb := block
+		if b := n.Block(); b != nil {
+			cb = b
+		}
+		for i, k := 0, view.count(n); i < k; i++ {
+			rec2(view.child(n, i), n, i, cb)
+		}
+		want2 = append(want2, walkEvent{true, n, parent, index, block, true})
+	}
+	rec2(root, cm.Node{}, -1, nil)
+	if g2, w2 := show(got2), show(want2); g2 != w2 {
+		x.Fail("second-walk-differs", cfg, in, "a complete Walk of the same tree after the first walk (trace %s) gave\n%s\nreference:\n%s", truncate(gs, 300), truncate(g2, 1500), truncate(w2, 1500))
 		return
 	}
 	if total >= 4 && (pruned > 0 || aborted) {
